@@ -478,6 +478,39 @@ def _pretty_c08box(b, ctx):
     return P.pretty_call(ctx, C08Box, b.v)
 
 
+ENUM_FORM = 'enum-mixin-converting-form'
+
+
+def enum_converting_forms(chk, S):
+    """The recorded deviation for Enum mix-ins: members whose printed call relies on the base constructor converting
+    its argument. Anything else that goes wrong with them (not a call of the class at all, a warning) is a violation."""
+    kf = chk.match_finding('C08.roundtrip', ENUM_FORM)
+    for m in S.CONVERTING_FORM_MEMBERS:
+        desc = {'member': '%s.%s' % (type(m).__name__, m.name), 'value': repr(m.value)}
+        chk.cov['evaluations'] += 1
+        try:
+            with warnings.catch_warnings(record=True) as wl:
+                warnings.simplefilter('always')
+                out = P.pformat(m)
+        except Exception as e:  # noqa
+            chk.violation('C08.raises', 'printing the Enum mix-in member %r raised %r' % (desc, e), desc)
+            continue
+        desc['output'] = out
+        name = 'verif_subs.' + type(m).__name__
+        try:
+            back = eval(out, {'verif_subs': S})
+            ok = back is m
+        except Exception as e:  # noqa
+            ok = False
+            desc['eval_error'] = repr(e)[:200]
+        if ok:
+            continue                        # prints in a form that evaluates: nothing to report
+        if out.startswith(name + '(') and not any('raised an exception' in str(w.message) for w in wl) and kf:
+            chk.known(kf)
+        else:
+            chk.violation('C08.roundtrip', 'the Enum mix-in member %r is not printed as a call of its class: %r' % (desc, out), desc)
+
+
 def check_c08(chk, args):
     import verif_subs as S
     q = chk.tier == 'quick'
@@ -502,6 +535,8 @@ def check_c08(chk, args):
         for cls, (qual, kind) in S.ALL.items():
             if cls is S.IE:
                 insts = [S.IE.A, S.IE.B]
+            elif cls in S.ENUM_MIXINS:
+                insts = list(cls)
             else:
                 insts = []
                 for b in c08_base_values(kind, rng, q):
@@ -517,7 +552,7 @@ def check_c08(chk, args):
                     for cn, w_, wt_ in ctxs:
                         vi += 1
                         val = w_(inst)
-                        if cls is not S.IE:
+                        if cls is not S.IE and cls not in S.ENUM_MIXINS:
                             bound.append(val)
                         expected = wt_(pyterm.value_term(inst, subs=S.ALL))
                         widths = [1, 5, 10, 20, 30, 40, 50, 70, 79] if q else list(range(1, 71)) + [79, 200]
@@ -532,7 +567,8 @@ def check_c08(chk, args):
         'output must denote <<"sub", qualified name, base value>> (PyTerm!Denote); distinct = (instance, context, output)'))
     # spec -> code: Printers.tla predicts the exact text of subclass instances (wrapper call, hugging, empty and
     # placeholder forms, the forced plain strategy of split str / bytes subclasses) - DRIFT only
-    SUB_TYPES.update({c: qk for c, qk in S.ALL.items() if c is not S.IE})
+    SUB_TYPES.update({c: qk for c, qk in S.ALL.items() if c is not S.IE and c not in S.ENUM_MIXINS})
+    enum_converting_forms(chk, S)
     printers_binding(chk, bound, name='subclasses', per_value=1 if q else 3)
     chk.assumptions += ['cross-oracle: eval with the generated module in scope, type(result) is the subclass and the '
                         'underlying base values are typed-equal']
